@@ -51,7 +51,7 @@ class Run:
         self.scripts = scripts or {}
         self.it = Interp(env=env, src_env=src_env, cfg=cfg_fn(cfgname), on_call=self.on_call)
         # helpers extracted after the rules were written are interpreted (see vf.new_fn_resolver)
-        self.it.resolve_fn = vf.new_fn_resolver(facts, (VIS[which][0], "src/validator/mod.rs", "src/validator/control.rs"), cfg_fn(cfgname))
+        self.it.resolve_fn = vf.new_fn_resolver(facts, (VIS[which][0], "src/validator/mod.rs", "src/validator/control.rs"), cfg_fn(cfgname), self_ty=VIS[which][1])
         self.new_methods = vf.new_methods(facts, *VIS[which])
 
     def on_call(self, kind, name, node, args, recv):
@@ -570,7 +570,7 @@ class ObjRun:
                 self.methods.setdefault(fi.name, []).append(fi)
         self.depth = 0
         self.inline |= vf.new_methods(facts, file, ty)
-        self.resolve_fn = vf.new_fn_resolver(facts, (file, "src/validator/mod.rs", "src/validator/control.rs"), self.cfg)
+        self.resolve_fn = vf.new_fn_resolver(facts, (file, "src/validator/mod.rs", "src/validator/control.rs"), self.cfg, self_ty=ty)
 
     def fn(self, name):
         for fi in self.methods.get(name, []):
